@@ -297,31 +297,34 @@ theorem txn_batch_one_node : ∀ (evs : List PutEv) (s : PutSt), s.nodes.length 
   | cons e es ih => intro s h; exact ih _ (put_txn_one_node s h e)
 
 open GunYu.ClusterSender in
-/-- a Dispatch that fails has queued a strict prefix of the node batches; when a Put was refused,
-    nothing -/
+/-- a Dispatch that fails has queued a strict prefix of the node batches (or there is none: every Put
+    was refused); when a Put was refused, nothing -/
 theorem dispatch_error_prefix (s : PutSt) (f : Option Nat) (hf : (dispatch s f).2 = false) :
-    (dispatch s f).1.length < s.nodes.length ∧ (dispatch s f).1 <+: s.nodes ∧
+    ((dispatch s f).1.length < s.nodes.length ∨ s.nodes = []) ∧ (dispatch s f).1 <+: s.nodes ∧
     (s.err = true → (dispatch s f).1 = []) := by
   unfold dispatch at hf ⊢
   split
-  · rename_i h; rw [if_pos h] at hf; exact nomatch hf
-  · rename_i h
-    rw [if_neg h] at hf
-    have hpos : 0 < s.nodes.length := by
-      cases hn : s.nodes with
-      | nil => exact absurd hn h
-      | cons a t => simp
+  · refine ⟨?_, List.nil_prefix, fun _ => rfl⟩
+    cases hn : s.nodes with
+    | nil => exact Or.inr rfl
+    | cons a t => exact Or.inl (by simp)
+  · rename_i he
+    rw [if_neg he] at hf
     split
-    · exact ⟨hpos, List.nil_prefix, fun _ => rfl⟩
-    · rename_i he
-      rw [if_neg he] at hf
+    · rename_i h; rw [if_pos h] at hf; exact nomatch hf
+    · rename_i h
+      rw [if_neg h] at hf
+      have hpos : 0 < s.nodes.length := by
+        cases hn : s.nodes with
+        | nil => exact absurd hn h
+        | cons a t => simp
       cases f with
       | none => exact nomatch hf
       | some k =>
         simp only at hf ⊢
         split
         · rename_i hk
-          refine ⟨?_, List.take_prefix _ _, fun h2 => absurd h2 he⟩
+          refine ⟨Or.inl ?_, List.take_prefix _ _, fun h2 => absurd h2 he⟩
           rw [List.length_take]; omega
         · rename_i hk; rw [if_neg hk] at hf; exact nomatch hf
 
@@ -329,8 +332,12 @@ open GunYu.ClusterSender in
 /-- one node batch: a failed Dispatch submitted NOTHING -/
 theorem dispatch_error_one_node_submits_nothing (s : PutSt) (h : s.nodes.length ≤ 1) (f : Option Nat)
     (hf : (dispatch s f).2 = false) : (dispatch s f).1 = [] := by
-  have := (dispatch_error_prefix s f hf).1
-  exact List.eq_nil_of_length_eq_zero (by omega)
+  have hp := dispatch_error_prefix s f hf
+  rcases hp.1 with h1 | h1
+  · exact List.eq_nil_of_length_eq_zero (by omega)
+  · have hl := hp.2.1.length_le
+    rw [h1] at hl
+    exact List.eq_nil_of_length_eq_zero (by simpa using hl)
 
 open GunYu.ClusterSender in
 theorem dispatch_submits_le (s : PutSt) (f : Option Nat) : (dispatch s f).1.length ≤ s.nodes.length := by
